@@ -8,12 +8,12 @@ LEVEL = "model_checking"
 
 def run(ctx: Ctx) -> None:
     names = list(evo.cat())
-    c = evo.loop_explore(ctx, names, {"C02"}, bound=1 if ctx.quick else 2, cap=1500 if ctx.quick else 40000)
+    c = evo.loop_explore(ctx, names, {"C02"}, bound=1 if ctx.quick else 2, cap=1500 if ctx.quick else 10000)
     ctx.log(f"loop: { {k: v for k, v in c.items() if k != 'choice_points_default'} }")
     d = direct(ctx)
     # operator closure through the acceptance gate: every tree reachable by mutate / crossover / repair (all resolutions,
     # depth 2-3) is offered to a fresh evaluator; whatever it accepts as a solution is judged
-    b = evo.closure_explore(ctx, names, {"C02"}, depth=2 if ctx.quick else 3, frontier_cap=10 if ctx.quick else 24, run_cap=80 if ctx.quick else 300)
+    b = evo.closure_explore(ctx, names, {"C02"}, depth=2 if ctx.quick else 3, frontier_cap=10 if ctx.quick else 16, run_cap=80 if ctx.quick else 200)
     ctx.log(f"closure: {b}")
     ctx.coverage.update(
         operator_closure=b,
